@@ -35,4 +35,10 @@ impl URL {
     pub fn parse(url: &str) -> Result<UrlComponents, String> {
         parse_url(url)
     }
+
+    /// true if the given url path can be appended to the served directory without leaving it:
+    /// it starts with a slash and contains no parent directory reference
+    pub fn is_path_inside_root(path: &str) -> bool {
+        path.starts_with("/") && !path.contains("..")
+    }
 }
